@@ -3,13 +3,17 @@
 // Op line (one complete spend attempt of one deposit output):
 //
 //	spend <p2sh|p2wsh> <depositor> <extra|-> <blinding> <walletPKH> <refundPKH> <locktime4>
-//	      <sk> <pk> <hash160(pk)> <flavor> <txLocktime> <sequence> <scriptHash>
+//	      <sk> <pk> <hash160(pk)> <flavor> <txLocktime> <sequence> <scriptHash> <warm>
 //
 // all byte strings in hex.  <scriptHash> is HASH160 (p2sh) / SHA256 (p2wsh) of the script the
 // bridge specification prescribes for these fields (computed by the generator with an independent
 // template): together with hash160(pk) these are the concrete facts about the external hash
 // functions the Lean model needs.  flavor: good | bad (signature over another digest) | highs |
 // empty | ht2 (SIGHASH_NONE) | ht0 (invalid hash type) | wrongamt (engine told amount+1).
+//
+// <warm> = - | <field>:<hex>: before the script of this deposit is built, Script() is called (in the
+// same process) for a sibling deposit that differs only in that field (lt, blind, wpkh, rpkh, dep,
+// extra) — Script() must be a pure function of the deposit, the model ignores the token.
 //
 // Exec builds the script with the REAL tbtc.Deposit.Script(), locks it with the real
 // bitcoin.PayTo(Witness)ScriptHash helpers, signs a spending transaction and runs btcd's
@@ -103,6 +107,14 @@ func gen(r *hx.Rng, n int, tier string) []string {
 			kind = "p2wsh"
 		}
 		depositor := r.Bytes(20)
+		switch r.Intn(12) {
+		case 0: // leading zero nibbles / bytes (the address string starts with 0x0… or 00…)
+			depositor[0] = byte(r.Intn(16))
+		case 1:
+			depositor[0], depositor[1] = 0, byte(r.Intn(256))
+		case 2:
+			depositor = make([]byte, 20)
+		}
 		var extra []byte
 		if r.Bool() {
 			extra = r.Bytes(32)
@@ -188,9 +200,26 @@ func gen(r *hx.Rng, n int, tier string) []string {
 		} else {
 			sh = make([]byte, 32)
 		}
+		warm := "-"
+		if r.Chance(1, 3) {
+			switch r.Intn(8) {
+			case 0:
+				warm = "blind:" + hx2(r.Bytes(8))
+			case 1:
+				warm = "wpkh:" + hx2(r.Bytes(20))
+			case 2:
+				warm = "rpkh:" + hx2(r.Bytes(20))
+			case 3:
+				warm = "dep:" + hx2(r.Bytes(20))
+			case 4:
+				warm = "extra:" + hx2(r.Bytes(32))
+			default: // same depositor parameters, another refund locktime
+				warm = "lt:" + hx2(le4(lt+uint32(r.Range(1, 5000000))))
+			}
+		}
 		ops = append(ops, strings.Join([]string{"spend", kind, hx2(depositor), hx2(extra), hx2(blinding),
 			hx2(wpkh), hx2(rpkh), hx2(le4(lt)), hx2(priv.Serialize()), hx2(pk), hx2(pkh), flavor,
-			fmt.Sprint(txLock), fmt.Sprint(seq), hx2(sh)}, " "))
+			fmt.Sprint(txLock), fmt.Sprint(seq), hx2(sh), warm}, " "))
 	}
 	return ops
 }
@@ -229,7 +258,7 @@ func errClass(err error) string {
 
 func exec(op string) (string, string) {
 	f := strings.Fields(op)
-	if len(f) != 15 || f[0] != "spend" {
+	if len(f) != 16 || f[0] != "spend" {
 		return "bad-op", "bad"
 	}
 	kind := f[1]
@@ -253,6 +282,30 @@ func exec(op string) (string, string) {
 		var e [32]byte
 		copy(e[:], extra)
 		d.ExtraData = &e
+	}
+	warmed := false
+	if f[15] != "-" {
+		p := strings.SplitN(f[15], ":", 2)
+		w := *d
+		v := unhex(p[1])
+		switch p[0] {
+		case "lt":
+			copy(w.RefundLocktime[:], v)
+		case "blind":
+			copy(w.BlindingFactor[:], v)
+		case "wpkh":
+			copy(w.WalletPublicKeyHash[:], v)
+		case "rpkh":
+			copy(w.RefundPublicKeyHash[:], v)
+		case "dep":
+			w.Depositor = chain.Address(hex.EncodeToString(v))
+		case "extra":
+			var e [32]byte
+			copy(e[:], v)
+			w.ExtraData = &e
+		}
+		_, _ = w.Script()
+		warmed = true
 	}
 	script, err := d.Script()
 	if err != nil {
@@ -352,6 +405,9 @@ func exec(op string) (string, string) {
 	}
 	if flavor != "good" {
 		tag += "+sig-" + flavor
+	}
+	if warmed {
+		tag += "+warm"
 	}
 	if role == "refund" && verr == nil {
 		tag += "+cltvok"
